@@ -9,11 +9,14 @@
      31 as 3, but the only difference is the universal tag of a character string
         that has no string-type parameter                  (known-finding class)
      41 as 4, for a type/params using EXPLICIT tagging   (known-finding class)
-     42 as 4, for a type with an untagged member          (known-finding class)
+     42 as 4: Go returned an error and the encoded value contains a member without
+        context tag                                        (known-finding class)
      5  C04: Go marshal panicked
    and by [run_dcases] (arbitrary bytes, bercorr -mode dec):
      6  dec (model) <> outcome of Go Unmarshal                     (correspondence)
-     7  C16 monitor on the implementation: Go panicked or did not terminate *)
+     7  C16 monitor on the implementation: Go panicked or did not terminate
+     71 C16 monitor: input whose outer identifier is not the one the target type
+        requires was accepted instead of reported as an error (known-finding class) *)
 From Coq Require Import List ZArith Bool.
 From Verif Require Import Common.Outcome Common.Bytes Ber.Model Ber.X690.
 Import ListNotations.
@@ -80,6 +83,55 @@ Fixpoint has_untagged (t : ty) : bool :=
   | _ => false
   end.
 
+(* does the encoding of [v] contain a member that has no context tag? *)
+Fixpoint uses_untagged (t : ty) (v : value) {struct t} : bool :=
+  match t, v with
+  | TPtr t', VPtr v' => uses_untagged t' v'
+  | TWrap t', VStruct (v0 :: _) => uses_untagged t' v0
+  | TSlice t', VSlice vs => existsb (uses_untagged t') vs
+  | TChoice l, VStruct (VInt pr :: vs) =>
+    (fix go (l : list (fparams * ty)) (ws : list value) (k : Z) : bool :=
+       match l, ws with
+       | (fp, ft) :: l', w :: ws' =>
+         (if k =? pr then (match p_tag fp with Some _ => false | None => true end) || uses_untagged ft w
+          else false) || go l' ws' (k + 1)
+       | _, _ => false
+       end) l vs 1
+  | TSeq l, VStruct vs =>
+    (fix go (l : list (fparams * ty)) (ws : list value) : bool :=
+       match l, ws with
+       | (fp, ft) :: l', w :: ws' =>
+         (if p_optional fp && is_nil w then false
+          else (match p_tag fp with Some _ => false | None => true end) || uses_untagged ft w)
+         || go l' ws'
+       | _, _ => false
+       end) l vs
+  | _, _ => false
+  end.
+
+(* identifier (class, number) the first element must carry for (t, p) *)
+Fixpoint tag_expected (t : ty) (p : fparams) (cls tn : Z) {struct t} : bool :=
+  match p_tag p with
+  | Some n => (cls =? 2) && (tn =? n)
+  | None =>
+    match t with
+    | TBool => (cls =? 0) && (tn =? 1)
+    | TInt => (cls =? 0) && (tn =? 2)
+    | TBits => (cls =? 0) && (tn =? 3)
+    | TOctets => (cls =? 0) && (tn =? 4)
+    | TNull => (cls =? 0) && (tn =? 5)
+    | TOid => (cls =? 0) && (tn =? 6)
+    | TEnum => (cls =? 0) && (tn =? 10)
+    | TString k => (cls =? 0) && (tn =? (if p_strtype p =? 0 then k else p_strtype p))
+    | TPtr t' | TWrap t' => tag_expected t' p cls tn
+    | TSeq _ | TSlice _ => (cls =? 0) && (tn =? (if p_set p then 17 else 16))
+    | TChoice l =>
+      (fix go (l : list (fparams * ty)) : bool :=
+         match l with [] => false | (fp, ft) :: r => tag_expected ft fp cls tn || go r end) l
+    | TUnsupported => false
+    end
+  end.
+
 Record bcase := mkBcase {
   bc_id : Z; bc_ty : ty; bc_p : fparams; bc_v : value;
   bc_enc : outcome (list Z); bc_dec : outcome value }.
@@ -98,7 +150,7 @@ Definition check_bcase (c : bcase) : list (Z * Z) :=
     (if outcome_eqb value_eqb (bc_dec c) (Ok (canon t false v)) then []
      else if (p_explicit p && (match p_tag p with Some _ => true | None => false end)) || has_explicit t
           then [(i, 41)]
-     else if has_untagged t then [(i, 42)]
+     else if uses_untagged t v && outcome_eqb value_eqb (bc_dec c) Err then [(i, 42)]
      else [(i, 4)])
   | Panic => [(i, 5)]
   | _ => []
@@ -114,6 +166,14 @@ Definition check_dcase (c : dcase) : list (Z * Z) :=
   (if outcome_eqb value_eqb (dec (dc_ty c) (dc_p c) (dc_bytes c)) (dc_out c) then [] else [(i, 6)]) ++
   match dc_out c with
   | Panic | OutOfFuel => [(i, 7)]
+  | Ok _ =>
+    match dc_bytes c with
+    | b0 :: _ =>
+      (* wrongly-typed input must be an error (outer identifier only; low tag numbers) *)
+      if (b0 mod 32 <? 31) && negb (tag_expected (dc_ty c) (dc_p c) (b0 / 64) (b0 mod 32))
+      then [(i, 71)] else []
+    | [] => [(i, 71)]
+    end
   | _ => []
   end.
 
